@@ -10,6 +10,8 @@ POS = 3n coordinates; NLIST = for every atom `c j1 .. jc`; SEL = `k i1 .. ik` at
   derive G9                                        -> strain9 rotation9 inv1 inv2 inv3 angvel^2
   nye    CELL n POS NLIST G(9n) SEL                -> 9k
   match  cosmax np P nq Q                          -> matched p index per q (-1 none)
+Stateful part (one Strain object `so`, one DifferentialDisplacement object `do`; see lean/Drivers/C17.lean):
+  so new|setp|buildp|theta|clear|setpos|setsys|solve|read     do new|solve|read|state
 """
 from __future__ import annotations
 
@@ -36,6 +38,13 @@ THEOREMS = [
     'C17.interp_at_knot',
     # joint translation, consistent renumbering
     'C17.translation_invariant', 'C17.permutation_equivariant',
+    # the reference handed over directly: broadcasting of a shared set, `axes` transformation
+    'C17.transformP_roundtrip', 'C17.givenP_axes_roundtrip', 'C17.givenP_shared',
+    # the Strain object: cached derived quantities depend only on the current inputs after solve_G
+    'C17.SObj.fresh_coherent', 'C17.SObj.solve_coherent', 'C17.SObj.solve_refuses', 'C17.SObj.read_coherent',
+    'C17.SObj.reads_coherent', 'C17.SObj.reads_after_solve', 'C17.SObj.G_after_solve',
+    # the DifferentialDisplacement object
+    'C17.DObj.solve_current', 'C17.DObj.solve_forgets', 'C17.DObj.solve_list',
 ]
 PARTIAL = {
     'matchPQ_pairing': 'pairing correctness of match_pq (matchPQ_pairing_partial, hence solveG/strainG_homogeneous) is proved '
@@ -52,10 +61,27 @@ PARTIAL = {
                                'relative tolerance, so plane/column grouping is not translation invariant in general; '
                                'the invariance of the real function is searched with the oracle',
     'sqrt': 'the square root in match_pq is a parameter `mag`; solveG_undeformed assumes mag p > 0 and mag p ^ 2 = |p|^2',
+    'stale_reads': 'the real Strain object keeps cached strain/rotation/invariants/Nye when p vectors, theta_max or the system '
+                   'change WITHOUT solve_G/clear_properties (by design: solve_G is the documented way to re-solve); the model '
+                   'mirrors that (tied), the theorems state coherence only after solve_G, on fresh and on cleared objects',
+    'rank_deficient': 'atoms with fewer than three independent matched neighbour vectors (corners of non-periodic blocks, half '
+                      'lists): lstsq returns the minimum-norm solution, which the normal-equation model does not describe; '
+                      'such atoms are only required not to crash the analysis (G = F^-T is claimed for full-rank atoms)',
 }
-RULE = ('reference crystals fcc/bcc/hcp/L1_2/B2/two-type hcp/bct-described fcc/[11-2][111][-110]-oriented fcc built '
-        'from literal fractional coordinates; one neighbour shell (1st, or 1st+2nd for fcc/bcc/B2) and the smallest '
-        'supercell whose periodic widths exceed twice the shell radius, grown by 0-2 cells (16-200 atoms); per crystal '
+RULE = ('reference crystals fcc/bcc/hcp/L1_2/B2/two-type hcp/bct-described fcc/[11-2][111][-110]-oriented fcc/primitive '
+        'rhombohedral fcc and bcc (triclinic boxes) built from literal fractional coordinates, optionally re-described in a '
+        'strongly sheared supercell (b, c plus whole unit-cell vectors, tilts up to the LAMMPS limit); one neighbour shell '
+        '(1st, or 1st+2nd for fcc/bcc/B2) and the smallest '
+        'supercell whose periodic widths exceed twice the shell radius, grown by 0-2 cells (16-200 atoms); periodicity all / '
+        'off along the slip normal / off in-plane / none / one direction (coordination down to 1), neighbour list = the '
+        "cutoff's, its half list (down to 0 neighbours) or a thinned one; rigid slips small (no-image-flip regime) and "
+        'LARGE (0.8-1.04 of the Wigner-Seitz boundary of the periodic lattice, expectation from the exhaustive '
+        'nearest-image oracle inside the radius proved in C02); systems with different pbc flags; the reference for Strain '
+        'handed over as basesystem (+neighbors / +cutoff), shared (m,3), [(m,3)], per-atom lists / array, each with and '
+        'without axes (integer crystallographic triples, rational rotations); operation sequences on ONE Strain object '
+        '(reads of all 8 properties, set_p_vectors, build_p_vectors, theta_max, solve_G(theta_max), clear_properties, '
+        'in-place change of the system) and on ONE DifferentialDisplacement object (every constructor form, solve with '
+        'every subset of arguments, refused calls); per crystal '
         'several deformations: homogeneous F = R(I+eps) with |eps|<=0.03 incl. pure rotations and pure strains (box '
         'deformed too, atoms optionally moved by box vectors), smooth periodic displacement fields for non-zero Nye, '
         'rigid slips of a half crystal on planes between atomic layers (pbc on and off along the normal, wrapped and '
@@ -70,6 +96,9 @@ ASSUMPTIONS = [
     'double rounding of the implementation is bounded by atol 2e-9 (positions of order 10, strains <= 0.05); '
     'on dyadic inputs displacement / slip / dd / disregistry are compared exactly',
     'the neighbour lists are inputs (their correctness is property C03)',
+    'cos(theta_max*pi/180) is supplied to the object model together with theta_max (libm cos, as the code computes it)',
+    'the exhaustive nearest-image oracle enumerates the lattice inside the radius of C02.search_radius_images; minima not '
+    'unique by a relative margin of 1e-7 (exact ties of perfect crystals at half box vectors) are exempt',
 ]
 TRUSTED = ['numpy (lstsq, unique, interp, isclose, dot) in the correspondence run',
            'atomman.NeighborList (C03) and System.supersize/rotate (C04) as generators of the reference crystals']
@@ -968,12 +997,12 @@ def correspond(ctx):
     rng = ctx.rng
     for it in range(ctx.n(10, 45)):
         _guarded_case(ctx, 'corr', _corr_slip, rng.getrandbits(48), it)
-    for it in range(ctx.n(10, 40)):
+    for it in range(ctx.n(8, 40)):
         _guarded_case(ctx, 'corr', _corr_strain, rng.getrandbits(48), it)
     _corr_match(ctx, rng.getrandbits(48), ctx.n(250, 2500))
-    for it in range(ctx.n(8, 40)):
+    for it in range(ctx.n(6, 40)):
         _guarded_case(ctx, 'corr', _strain_sequence, rng.getrandbits(48), it, True)
-    for it in range(ctx.n(8, 40)):
+    for it in range(ctx.n(6, 40)):
         _guarded_case(ctx, 'corr', _dd_sequence, rng.getrandbits(48), it, True)
 
 
@@ -1599,7 +1628,7 @@ def _strain_sequence(ctx, caseseed, it, tie):
     import atomman as am
     import warnings
     rng = random.Random(caseseed)
-    ref = _small_reference(rng, 40 if tie else 120)
+    ref = _small_reference(rng, 32 if tie else 120)
     s0, name, a, shells, size = ref
     n = s0.natoms
     cut = shells[0][0] * a
@@ -2149,22 +2178,26 @@ def _search_p_supply(ctx, caseseed, it):
 def search(ctx, broken):
     rng = random.Random(ctx.seed * 7919 + 17)
     mult = 2 if broken else 1
-    for it in range(ctx.n(8, 45) * mult):
+    for it in range(ctx.n(20, 60) * mult):
         _guarded_case(ctx, 'search', _search_slip, rng.getrandbits(48), it)
-    for it in range(ctx.n(8, 40) * mult):
+    for it in range(ctx.n(12, 40) * mult):
         _guarded_case(ctx, 'search', _search_homog, rng.getrandbits(48), it)
-    for it in range(ctx.n(8, 40) * mult):
+    for it in range(ctx.n(12, 60) * mult):
         _guarded_case(ctx, 'search', _search_p_supply, rng.getrandbits(48), it)
-    for it in range(ctx.n(10, 50) * mult):
+    for it in range(ctx.n(20, 80) * mult):
         _guarded_case(ctx, 'search', _strain_sequence, rng.getrandbits(48), it, False)
-    for it in range(ctx.n(10, 50) * mult):
+    for it in range(ctx.n(16, 80) * mult):
         _guarded_case(ctx, 'search', _dd_sequence, rng.getrandbits(48), it, False)
 
 
 def _guarded_case(ctx, phase, f, caseseed, it, *more):
     """an exception escaping a case is an observation (reported with its input), never a crash of the harness."""
+    import time
+    t0 = time.time()
     try:
         f(ctx, caseseed, it, *more)
+        k = 'seconds:' + phase + ':' + f.__name__.lstrip('_')
+        ctx.extra[k] = round(ctx.extra.get(k, 0.0) + time.time() - t0, 2)
     except cm.InfraError:
         raise
     except Exception as e:   # noqa
@@ -2223,7 +2256,12 @@ MANIFEST = {
             'under its hypothesis (each q has a best p inside theta_max, distinct q distinct p); strain/rotation are '
             'the symmetric/antisymmetric parts of I - G, the invariants the characteristic-polynomial coefficients; '
             'constant G gives a zero Nye tensor; all per-atom results are unchanged by a joint translation and carried '
-            'along by a consistent renumbering. The model is tied to the compiled/pure-python code by a differential '
+            'along by a consistent renumbering. p vectors handed over in a rotated frame with axes=T are stored as T p '
+            '(shared set broadcast to every atom, per-atom sets atom by atom). Object level: a Strain object is modelled with '
+            'its eight cached quantities; after solve_G (with or without theta_max) on an object in ANY state every read '
+            'returns the value determined by the current inputs alone, i.e. what a fresh object returns (solve_coherent, '
+            'read_coherent, reads_after_solve); a DifferentialDisplacement object stores after a successful solve exactly '
+            'the vectors of its current systems and list, whatever it held before. The model is tied to the compiled/pure-python code by a differential '
             'run (exact on dyadic inputs) and the clauses are searched on the real code with an exact oracle.',
     'note': 'Partial: that a small deformation of a perfect crystal satisfies the pairing hypothesis of match_pq, and '
             'that numpy lstsq solves the normal equations, are checked on the implementation, not proved. Trusted: Lean '
